@@ -13,6 +13,7 @@ package main
 
 import (
 	"fmt"
+	"os"
 	"go/token"
 	"go/types"
 	"sort"
@@ -155,6 +156,7 @@ func (sa *Safe) rankLoop(fr *frame, h *ssa.BasicBlock, latches []*ssa.BasicBlock
 		pa := onlyAtom(pv.Lin)
 		dir := 0
 		good := true
+		var maxStep int64
 		for _, l := range latches {
 			es := backEdge[[2]int{l.Index, h.Index}]
 			if es == nil {
@@ -174,6 +176,14 @@ func (sa *Safe) rankLoop(fr *frame, h *ssa.BasicBlock, latches []*ssa.BasicBlock
 			// the edge state binds the phi atom to the incoming value, so compare with the
 			// value the phi had at the header: recorded as the `pre` relation below
 			d := sa.deltaOnEdge(fr, es, phi, inc.Lin)
+			if os.Getenv("NASVERIF_DEBUG") != "" {
+				fmt.Fprintf(os.Stderr, "loop %s phi %s inc=%s delta=%d itv(inc)=%s\n", fr.fn.Name(), phiName(phi), sa.u.linString(inc.Lin), d, es.linItv(inc.Lin))
+			}
+			if st := es.linItv(inc.Lin.add(pv.Lin, -1)); d > 0 && st.Hi > maxStep {
+				maxStep = st.Hi
+			} else if d < 0 && -st.Lo > maxStep {
+				maxStep = -st.Lo
+			}
 			switch {
 			case d > 0 && dir >= 0:
 				dir = 1
@@ -243,7 +253,7 @@ func (sa *Safe) rankLoop(fr *frame, h *ssa.BasicBlock, latches []*ssa.BasicBlock
 					if k != 1 && k != -1 {
 						lim = posInf
 					}
-					if dir > 0 && lim+256 > rg.Hi && rg.Hi < (1<<31) {
+					if dir > 0 && satAdd(lim, maxStep) > rg.Hi {
 						whyRank = append(whyRank, fmt.Sprintf("%s (%s) may wrap around before reaching its bound (bound up to %d)", phiName(phi), phi.Type(), lim))
 						continue
 					}
